@@ -28,7 +28,7 @@ META = {
 RULE = ("a case is (file size, Range header value or none, conditional header variants, method); non-trivial when it "
         "carries a Range that the strict grammar classifies as valid-partial or invalid, or a crisp conditional; "
         "distinct by the case tuple")
-FLOORS = {"quick": 6000, "thorough": 120000}
+FLOORS = {"quick": 6000, "thorough": 60000}
 ASSUMPTIONS = ["strict single-range grammar = RFC 7233 byte-ranges-specifier with exactly one spec, lower-case unit",
                "file does not change during the shard"]
 REQUIRED_COUNTERS = ["oracle_evals", "range_valid_evals", "range_invalid_evals", "expect_304_evals", "head_pair_evals",
@@ -50,7 +50,7 @@ def content(n):
 def shards(tier, seed):
     if tier == "quick":
         return [{"n": 1000} for _ in range(16)]
-    return [{"n": 12000} for _ in range(32)]
+    return [{"n": 30000} for _ in range(32)]
 
 
 # ------------------------------------------------------------------ generation
@@ -328,7 +328,12 @@ def judge(ctx, case, r, F, rcls, cverdict, wit):
 
 
 def _ckind(case):
-    return "+".join(f"{k}-{s if not isinstance(s, int) else ('past' if s < 0 else 'now-or-future')}" for k, s in case["cond"])
+    """Kind of the deciding conditional header (If-None-Match wins when present)."""
+    d = dict(case["cond"])
+    if "inm" in d:
+        return "inm-" + d["inm"]
+    s = d.get("ims")
+    return "ims-" + (str(s) if not isinstance(s, int) else ("past" if s < 0 else "now-or-future"))
 
 
 def _rshape(v):
